@@ -17,6 +17,10 @@ TInit == l = 1 /\ inst = NoInst /\ iters = NoIters
 
 Ev(name) == l <= Len(Trace) /\ Trace[l].ev = name /\ l' = l + 1
 
+\* Observations on an instance loaded from a HISTORICAL layout are judged by the
+\* same predicates but belong to C06 ("answers exactly as the index it encodes").
+PC(prop, what) == IF inst.live /\ inst.legacy THEN "P:C06:" \o prop \o "-" \o what ELSE "P:" \o prop \o ":" \o what
+
 TNew ==
   /\ Ev("new")
   /\ LET e == Trace[l] IN
@@ -43,7 +47,7 @@ TStat ==
   /\ LET e == Trace[l]
          bad == StatBad(inst, e) IN
      /\ inst.live
-     /\ Report(l, "P:C18:stat", bad)
+     /\ Report(l, PC("C18", "stat"), bad)
      /\ Report(l, "P:C18:roundtrip", IF inst.loaded /\ inst.stat # <<e.levels, e.keycnt, e.nodecnt>> THEN {1} ELSE {})
      /\ LayerM => Report(l, "M:levels", StatDrift(inst, e))
      /\ inst' = [inst EXCEPT !.stat = <<e.levels, e.keycnt, e.nodecnt>>]
@@ -63,10 +67,10 @@ Ans(e) == <<e.ids, e.gets, e.rgets, e.srch, e.geti, e.pans>>
 \* the batch is judged in full.
 JudgeK(e) ==
   /\ Report(l, "P:C05:answers", IF inst.loaded THEN {1} ELSE {})
-  /\ Report(l, "P:C01:get", KC01get(inst, e))
-  /\ Report(l, "P:C01:id", KC01id(inst, e))
-  /\ Report(l, "P:C02:rget", KC02(inst, e))
-  /\ Report(l, "P:C09:search", KC09(inst, e))
+  /\ Report(l, PC("C01", "get"), KC01get(inst, e))
+  /\ Report(l, PC("C01", "id"), KC01id(inst, e))
+  /\ Report(l, PC("C02", "rget"), KC02(inst, e))
+  /\ Report(l, PC("C09", "search"), KC09(inst, e))
   \* an accepted input whose own keys are not found is "silently mis-indexed" (C08)
   /\ Report(l, "P:C08:misindexed", KC01get(inst, e) \cup KC01id(inst, e) \cup KC02(inst, e))
   /\ Common(e, Len(inst.ks))
@@ -85,12 +89,12 @@ JudgeQ(e) ==
   /\ Report(l, "P:C05:answers", IF inst.loaded /\ inst.lastq # <<>> /\ inst.lastq[1] = e.qs THEN {1} ELSE {})
   /\ Report(l, "W:floor", wb)
   /\ wb = {} =>
-       /\ Report(l, "P:C01:get", QC01(inst, e))
-       /\ Report(l, "P:C09:search", QC09(inst, e))
+       /\ Report(l, PC("C01", "get"), QC01(inst, e))
+       /\ Report(l, PC("C09", "search"), QC09(inst, e))
        /\ IsComplete(inst.o) =>
-            /\ Report(l, "P:C03:get", QC03get(inst, e))
-            /\ Report(l, "P:C03:rget", QC03rget(inst, e))
-            /\ Report(l, "P:C03:search", QC03search(inst, e))
+            /\ Report(l, PC("C03", "get"), QC03get(inst, e))
+            /\ Report(l, PC("C03", "rget"), QC03rget(inst, e))
+            /\ Report(l, PC("C03", "search"), QC03search(inst, e))
   /\ Common(e, Len(e.qs))
   /\ LayerM => Report(l, "M:answers", MAnswers(inst, e, e.qs))
 
@@ -166,6 +170,36 @@ TIndex ==
      /\ Report(l, "P:C12:exact", b.exact)
      /\ (LayerM /\ e.err = "" /\ e.pan = "") => Report(l, "M:index", IndexDrift(e))
 
+\* ---- historical layouts (C06) ------------------------------------------------
+\* what a stream of the layout encodes, as a content record: three-section
+\* layouts hold the conversion of the old trie = the current table with the 257-bit
+\* latch clear, every key, steps only (MC_Legacy); a 0.5.10/0.5.11 stream holds the
+\* trie its options describe.
+LegacyContent(e) ==
+  IF e.v3 = 1
+  THEN [Content(e.keys, e.vals, e.hasvals, <<0, 0, 0, 0>>, FALSE) EXCEPT !.legacy = TRUE]
+  ELSE [Content(e.keys, e.vals, e.hasvals, e.opt, TRUE) EXCEPT !.legacy = TRUE]
+
+TLegacy ==
+  /\ Ev("legacy")
+  /\ LET e == Trace[l] IN
+     /\ Report(l, "P:C06:load", IF e.err # "" \/ e.pan # "" THEN {1} ELSE {})
+     /\ inst' = IF e.err = "" /\ e.pan = "" THEN LegacyContent(e) ELSE NoInst
+
+\* the writers of the harness reproduce the archived fixtures byte for byte
+TCalibration ==
+  /\ Ev("calibration") /\ UNCHANGED inst
+  /\ LET e == Trace[l] IN
+     /\ Report(l, "W:calibration-three-section", IF e.v3bad # 0 \/ e.v3ok = 0 THEN {e.v3bad} ELSE {})
+     /\ Report(l, "I:calibration-0.5.10", IF e.v10bad # 0 THEN {e.v10bad} ELSE {})
+
+TScan ==
+  /\ Ev("scan") /\ Read
+  /\ LET e == Trace[l] IN
+     /\ inst.live
+     /\ Report(l, PC("C04", e.api), ScanBad(inst, e))
+     /\ LayerM => Report(l, "M:scan", ScanDrift(inst, e))
+
 TModes ==
   /\ Ev("modes")
   /\ inst' = NoInst
@@ -178,7 +212,7 @@ TModes ==
      /\ Report(l, "P:C13:onkeys", b.onkeys)
      /\ LayerM => Report(l, "M:modes", ModesDrift(e))
 
-TNext == UNCHANGED iters /\ (TNew \/ TTable \/ TTableErr \/ TStat \/ TObsK \/ TObsQ \/ TLoad \/ TModes \/ TRender \/ TMcheck \/ TIndex)
+TNext == UNCHANGED iters /\ (TNew \/ TTable \/ TTableErr \/ TStat \/ TObsK \/ TObsQ \/ TLoad \/ TModes \/ TRender \/ TMcheck \/ TIndex \/ TLegacy \/ TCalibration \/ TScan)
 
 \* every line consumed: l - 1 = Len(Trace) in the last state
 Accepted == TLCGet("stats").diameter - 1 = Len(Trace)
